@@ -131,6 +131,32 @@ def per_character(ctx):
                                   "header %s containing %r accepted by %s" % (where, c, op))
                 if c in CTL:
                     ctx.nontriv(("char", c, where, op))
+    # the constructor paths (MutableHeaders(...), Response(headers=...)): the text may be refused, it must never reach a header line
+    for c in sorted(CTL) + ["a", "\xe9"]:
+        for where in ("value", "name"):
+            k, v = ("x-n", "a" + c + "b") if where == "value" else ("x" + c + "n", "val")
+            for pkg, iface in ((W, "wsgi"), (A, "asgi")):
+                for how in ("mapping", "pairs", "response"):
+                    case = {"char": repr(c), "where": where, "constructor": how, "iface": iface}
+                    try:
+                        if how == "response":
+                            r = pkg.PlainTextResponse("x", 200, {k: v})
+                        else:
+                            r = pkg.PlainTextResponse("x")
+                            r.headers = MutableHeaders({k: v} if how == "mapping" else [(k, v)])
+                    except ValueError:
+                        ctx.count()
+                        ctx.nontriv(("ctor", c, where, how, "refused"))
+                        continue
+                    res = servers.wsgi_call(r, servers.Req()) if iface == "wsgi" else servers.asgi_call(r, servers.Req())
+                    ctx.count()
+                    if res.exc is not None and c in CTL:
+                        continue          # refused while emitting: nothing went out
+                    if any(has_ctl(a) or has_ctl(b) for a, b in res.header_multiset()):
+                        ctx.violation(case, "refused, or clean header lines", res.header_multiset(),
+                                      "header %s containing %r given to the constructor (%s) reaches the emitted header lines" % (where, c, how))
+                    if c in CTL:
+                        ctx.nontriv(("ctor", c, where, how, "emitted"))
     # cookies: name and value over all 256 characters, alone and next to each delimiter
     delims = [";", ",", "=", '"', "\\", " ", "\r", "\n"]
     cases = [c for c in (chr(i) for i in range(256))] + [a + b for a in delims for b in (chr(i) for i in range(256))] + \
